@@ -342,6 +342,15 @@ fn run_inner(line: &str) -> String {
             }
         }
         "fenformat" => {
+            if !matches!(PRE.with(|p| p.get()), Pre::None) {
+                // under an object prefix: the FEN of that board object (`Board::as_fen`), plus its own round trip
+                let b = tryb!(board_of(&t[1..]));
+                let text = b.as_fen();
+                if Board::from_fen(&text).ok().as_ref() != Some(&b) {
+                    return format!("{} does-not-parse-back", str_enc(&text));
+                }
+                return str_enc(&text);
+            }
             let raw = tryo!(raw_parse(&t[1..]));
             str_enc(&raw.to_string())
         }
